@@ -28,6 +28,8 @@ sub!(updrun, "updrun.rs");
 sub!(cmd, "cmd.rs");
 sub!(imports, "imports.rs");
 sub!(c15, "c15.rs");
+sub!(c16, "c16.rs");
+sub!(c18, "c18.rs");
 
 /// SplitMix64: every random choice of a run derives from one state.
 pub struct Rng(pub u64);
@@ -309,6 +311,12 @@ fn run() {
         }
         "C07" => imports::run(&mut report),
         "C15" => c15::run(&mut report),
+        "C16" => c16::run(&mut report),
+        "C18" => c18::run(&mut report),
+        "C18child" => {
+            c18::child();
+            return;
+        }
         other => panic!("no runner for property {other}"),
     }
     report.write();
